@@ -362,7 +362,7 @@ def run_batch(ctx, exe, scenarios, per_timeout=20.0, leak=True):
                 break
             todo = todo[done:]
             continue
-        if rc == 124:
+        if rc == 124 or rc == -14:
             r["crash"] = {"kind": "timeout", "error": "timeout", "function": None}
         else:
             sig = vplib.asan_signature(err) or {"kind": "fault", "error": "exit %d" % rc, "function": None}
@@ -378,7 +378,7 @@ def run_one(ctx, exe, scenario, timeout=60.0, leak=True):
     res, _ = parse_output(out)
     r = res.get(scenario.sid) or {"ended": False, "solve": [], "params": {}, "apply": [], "S": [], "ops": [],
                                   "err": None}
-    if rc == 124:
+    if rc == 124 or rc == -14:
         r["crash"] = {"kind": "timeout", "error": "timeout", "function": None}
     elif rc != 0:
         if r["ended"]:
@@ -707,8 +707,10 @@ def dut_error(sc, res, k=0):
 def build_wb(ctx):
     h = os.path.join(vplib.VERIF, "harness")
     return ctx.build_harness("selfcal_wb", san=True,
-                             extra=[os.path.join(h, "selfcal_wb_simple.c"), os.path.join(h, "selfcal_wb_auto.c")],
-                             exclude=("vnacal_new_solve_simple.c", "vnacal_new_solve_auto.c"))
+                             extra=[os.path.join(h, "selfcal_wb_simple.c"), os.path.join(h, "selfcal_wb_auto.c"),
+                                    os.path.join(h, "selfcal_wb_pvalue.c")],
+                             exclude=("vnacal_new_solve_simple.c", "vnacal_new_solve_auto.c",
+                                      "vnacal_new_solve_pvalue.c"))
 
 
 def parse_wb(out):
